@@ -329,6 +329,18 @@ def run(rep, variant, X, tier):
         for pmsg in sorted(set(problems))[:4]:
             rep.fail("abi", "first_round=%d: %s" % (fr, pmsg))
         total += X.shape[1]
+    def free_call():
+        m = Avr(prog, labels, X.shape[1]); m.numeric = numeric
+        STATE = m.STATE_BASE
+        for i in range(40):
+            m.mem.cells[(STATE + i, 1)] = B[i].copy()
+        m.setptr(24, STATE)
+        m.run("ascon_backend_free")
+        out = np.stack([m.mem.cells[(STATE + i, 1)] for i in range(40)])
+        problems = list(m.mem.violations)
+        finish_checks(m, problems)
+        return out, problems
+    total += second_entry(rep, labels, free_call, B)
     rep.stat("evaluations", total)
     rep.stat("nontrivial", total)
     print("SAMPLE emulated avr5: %d instructions, %d states x 12 starting rounds, r2-r17/r28/r29/r1/SP and load-store bounds checked" % (len(prog), X.shape[1]))
